@@ -214,6 +214,15 @@ func FindProtocolVersion(data []byte) string {
 // result column that is not binary (a scalar-returning method) — so the
 // caller can forward the body unchanged.
 func ReadUnaryResult(data []byte) (schema *arrow.Schema, result []byte, ok bool) {
+	// data is untrusted: arrow-go does not validate a binary column's offsets
+	// against its value buffer, so a corrupted envelope made Value(0) slice out
+	// of range and panic in the caller's goroutine. A body that cannot be read
+	// is simply not a result.
+	defer func() {
+		if recover() != nil {
+			schema, result, ok = nil, nil, false
+		}
+	}()
 	reader, err := ipc.NewReader(bytes.NewReader(data))
 	if err != nil {
 		return nil, nil, false
